@@ -71,10 +71,16 @@ VerdictMag(r) ==
            within == WithinMax(t, en, L)
            normal == AtLeastMinNormal(t, en, L)
            pos == r.fval.cls = "fin" /\ r.fval.s = 0
+           \* the smallest positive value of T is 2^(EMinN - p + 1): at or above it the magnitude lies within T's range,
+           \* below half of it no positive value of T approximates it (it would round to zero)
+           denorm == CmpPow(en.nl, en.dh, One, EMinN(t) - Prec(t) + 1, L) >= 0
+           vanishing == CmpPow(en.nh, en.dl, One, EMinN(t) - Prec(t), L) < 0
        IN [ok |-> /\ above => r.rep = 0
                   /\ (within /\ normal) => (r.rep = 1 /\ pos /\ InBandM(t, en, L, FromWire(r.fval.m), r.fval.e))
+                  /\ (within /\ denorm) => (r.rep = 1 /\ pos)
+                  /\ vanishing => r.rep = 0
                   /\ (r.rep = 1) => pos,                      \* strictly positive whenever a value is handed out
-           why |-> IF above THEN "above" ELSE IF within /\ normal THEN "normal" ELSE IF within THEN "tiny" ELSE "edge"]
+           why |-> IF above THEN "above" ELSE IF within /\ normal THEN "normal" ELSE IF within /\ denorm THEN "subnormal" ELSE IF vanishing THEN "vanishing" ELSE "edge"]
 (* classification *)
 ClassOK(r) == /\ (r.isint = 1) = IsIntM(r.mag)
               /\ (r.israt = 1) = IsRatM(r.mag)
